@@ -96,6 +96,11 @@ def run(tier):
             if not res["accepted"]:
                 chk.count(f"{name}:refused-{res['error']['stage']}")
                 continue
+            if res.get("abstracted"):
+                # the tool replaced a condition it could not normalise by a Bernoulli draw with an unknown probability symbol and
+                # reports the results in terms of that symbol (with a legend): a different, parametrised answer, not comparable here
+                chk.count(f"{name}:condition-abstracted-by-unknown-probability")
+                continue
             for gi, g in enumerate(res["goals"]):
                 if not g.get("ok"):
                     chk.count(f"{name}:refused-solve")
